@@ -106,6 +106,10 @@ CORPUS = [
     "D:from t | sort b | aggregate {s = sum a} | take 1",
     "D:from t | sort b | select {a} | derive {r = row_number this}",
     "D:from t | sort b | group a (take 1) | select {a} | take 2",
+    # third finding: the outer sort leaks into the pipeline of a join/append argument
+    "D:from t | sort {b} | append (from v | take 2..3)",
+    "D:from t | sort {(a + 1)} | append (from v | select {a, b, c}) | group a (take 1)",
+    "D:from t | sort {b} | join (from u | select {d} | take 2..3) (a == d)",
 ]
 
 
@@ -166,11 +170,13 @@ def walk_defs_tids(ts, defs, tids):
             walk_defs_tids(v, defs, tids)
 
 
-def need(vis, cs, cut=None):
+def need(vis, cs, cut=None, site=None):
     for c in cs:
         if c not in vis:
             b = Bad(f"not-visible {c}")
             b.cut_by = (cut or {}).get(c)
+            b.site = site
+            b.cid = c
             raise b
 
 
@@ -185,43 +191,38 @@ def scope(vis, ts, lax=False, seen=None, cut=None):
         elif tag == "Compute":
             u = expr_cids(v["expr"])
             w = v.get("window")
-            srt = []
+            srt, wu = [], []
             if w is not None:
-                u += range_cids(w["frame"]["range"]) + w["partition"]
+                wu = range_cids(w["frame"]["range"]) + w["partition"]
                 srt = [s["column"] for s in w["sort"]]
-            if lax:
-                need(vis, u, cut); need(seen, srt, cut)
-            else:
-                need(vis, u + srt, cut)
+            need(vis, u, cut, ("Compute.expr", v["id"]))
+            need(vis, wu, cut, ("Compute.window", v["id"]))
+            need(seen if lax else vis, srt, cut, ("Compute.window.sort", v["id"]))
             vis = vis + [v["id"]]; seen = seen + [v["id"]]
         elif tag == "Select":
-            need(vis, v, cut)
+            need(vis, v, cut, ("Select", None))
             for c in vis:
                 if c not in v:
                     cut[c] = "Select"
             vis = list(v)
         elif tag == "Filter":
-            need(vis, expr_cids(v), cut)
+            need(vis, expr_cids(v), cut, ("Filter", None))
         elif tag == "Aggregate":
             keep = v["partition"] + v["compute"]
-            need(vis, keep, cut)
+            need(vis, keep, cut, ("Aggregate", None))
             for c in vis:
                 if c not in keep:
                     cut[c] = "Aggregate"
             vis = keep
         elif tag == "Sort":
-            need(vis, [s["column"] for s in v], cut)
+            need(vis, [s["column"] for s in v], cut, ("Sort", None))
         elif tag == "Take":
-            u = range_cids(v["range"]) + v["partition"]
-            srt = [s["column"] for s in v["sort"]]
-            if lax:
-                need(vis, u, cut); need(seen, srt, cut)
-            else:
-                need(vis, u + srt, cut)
+            need(vis, range_cids(v["range"]) + v["partition"], cut, ("Take", None))
+            need(seen if lax else vis, [s["column"] for s in v["sort"]], cut, ("Take.sort", None))
         elif tag == "Join":
             cs = [c for _, c in v["with"]["columns"]]
             vis = vis + cs; seen = seen + cs
-            need(vis, expr_cids(v["filter"]), cut)
+            need(vis, expr_cids(v["filter"]), cut, ("Join.filter", None))
         elif tag == "Append":
             pass
         elif tag == "Loop":
@@ -282,6 +283,8 @@ def py_wf(rq, lax=False, info_out=None):
     except Bad as b:
         if info_out is not None:
             info_out["cut_by"] = getattr(b, "cut_by", None)
+            info_out["site"] = getattr(b, "site", None)
+            info_out["cid"] = getattr(b, "cid", None)
         return "bad " + str(b)
     except (KeyError, TypeError, ValueError, AttributeError, IndexError):
         return "undecodable"
@@ -467,23 +470,45 @@ def query_files():
 
 
 def py_both(rq):
-    """strict verdict, with the relaxed verdict appended when the strict one is bad (the drv answer format); plus the cutting transform"""
+    """strict verdict, with the relaxed verdict appended when the strict one is bad (the drv answer format); plus where it failed"""
     info = {}
     st = py_wf(rq, False, info)
     if st.startswith("bad"):
         lx = py_wf(rq, True)
-        return st + "; lax " + ("ok" if lx.startswith("ok") else lx), info.get("cut_by")
-    return st, None
+        # is the offending cid defined in another relation of the query?  is the offending Compute dead in its own pipeline?
+        if info.get("cid") is not None:
+            rels = [t["relation"] for t in rq["tables"]] + [rq["relation"]]
+            owners, users = [], []
+            for i, r in enumerate(rels):
+                if "Pipeline" in r["kind"]:
+                    d, _t = [], []
+                    walk_defs_tids(r["kind"]["Pipeline"], d, _t)
+                    if info["cid"] in d:
+                        owners.append(i)
+                    site = info.get("site") or (None, None)
+                    if site[1] is not None and site[1] in d:
+                        info["compute_dead"] = not any(site[1] in tr_uses(t) for t in r["kind"]["Pipeline"])
+                        users.append(i)
+            info["foreign"] = bool(owners) and (not users or owners != users) if (info.get("site") or (None, None))[1] is not None else bool(owners)
+        return st + "; lax " + ("ok" if lx.startswith("ok") else lx), info
+    return st, info
 
 
-def classify(answer, cut_by):
-    """known-finding predicates for a real RQ that fails wfRq: the relaxed predicate holds (so the only defect is a stale sort column
-    in a Take / window) and the column was cut off by an Aggregate resp. a Select"""
+def classify(answer, info):
+    """known-finding predicates for a real RQ that fails wfRq.
+    stale-sort-*: the relaxed predicate holds (the only defect is a stale sort column in a Take / window) and the column was cut
+    off by an Aggregate resp. a Select.
+    sort-leaks-into-subpipeline: the offending cid is defined in *another* relation of the query and is used by the sort of a
+    Take / window, or by a Compute that nothing in its pipeline uses (the sort key's Compute pushed into the wrong buffer)."""
+    site = (info.get("site") or (None, None))[0]
     if re.fullmatch(r"bad not-visible \d+; lax ok", answer):
-        if cut_by == "Aggregate":
+        if info.get("cut_by") == "Aggregate":
             return "stale-sort-after-aggregate"
-        if cut_by == "Select":
+        if info.get("cut_by") == "Select":
             return "stale-sort-after-select"
+    if re.fullmatch(r"bad not-visible (\d+); lax bad not-visible \1", answer) and info.get("foreign"):
+        if site in ("Take.sort", "Compute.window.sort") or (site == "Compute.expr" and info.get("compute_dead")):
+            return "sort-leaks-into-subpipeline"
     return None
 
 
@@ -502,7 +527,7 @@ def monitor(ctx, label, progs, rng, mutate_p):
     nbad = 0
     muts = []
     for (origin, p), d, m in zip(meta, docs, model):
-        py, cut_by = py_both(d)
+        py, info = py_both(d)
         ntr = sum(len(ts) for _, ts in pipelines(d))
         ctx.case((p,), nontrivial=m.startswith("ok") and ntr >= 3)
         ctx.count(f"{label}:" + m.split(" ")[0])
@@ -518,10 +543,10 @@ def monitor(ctx, label, progs, rng, mutate_p):
             ctx.disagreement("wfRq-vs-python", f"Lean wfRq says {m!r}, the Python re-implementation says {py!r}", {"prql": p, "origin": origin, "model": m, "python": py})
         if not m.startswith("ok"):
             nbad += 1
-            fid = classify(m, cut_by)
+            fid = classify(m, info)
             ctx.count(f"{label}:bad:" + (fid or "UNCLASSIFIED"))
             ctx.oracle_failure(fid, f"the resolver emitted an RQ that is not well-formed: {m} ({origin})",
-                               {"prql": p, "origin": origin, "wfRq": m, "python": py, "cut_by": cut_by, "class": fid})
+                               {"prql": p, "origin": origin, "wfRq": m, "python": py, "where": info, "class": fid})
         else:
             if len(ctx.samples) < 5 and ntr >= 6:
                 ctx.sample({"prql": p[-300:], "wfRq": m, "rq_transforms": ntr, "rq_tables": len(d["tables"])})
@@ -566,7 +591,8 @@ def run(ctx):
     nbad = 0
     # tie of theorem emitted_rq_wf_counterexample: the two transcribed documents are what the compiler emits today
     wit = [(DECL + "from t | sort b | select {a} | take 2", "bad not-visible 1; lax ok"),
-           (DECL + "from t | sort b | aggregate {s = sum a} | derive {r = row_number this}", "bad not-visible 1; lax ok")]
+           (DECL + "from t | sort b | aggregate {s = sum a} | derive {r = row_number this}", "bad not-visible 1; lax ok"),
+           (DECL + "from t | sort {b} | append (from t | take 2..3)", "bad not-visible 1; lax bad not-visible 1")]
     wa = vh_batch([{"op": "rq", "prql": p} for p, _ in wit])
     wm = drv_batch([f"wfrq\t{enc(json.dumps(a.get('rq'), ensure_ascii=True))}" for a in wa])
     same = all(m == e for m, (_, e) in zip(wm, wit))
